@@ -940,7 +940,7 @@ _S2 = 1 / math.sqrt(2)
 DV_FACTORS = {"+i": (_S2, _S2 * 1j), "-": (_S2, -_S2), "1": (0, 1), "-0": (-1, 0), "i0": (1j, 0)}
 DV_FACTOR_ORDER = ["+i", "-", "1", "-0", "i0"]
 DV_TOL32 = 5e-5      # float32 / complex64 input: tensorly computes in single precision (unchanged code reaches 3e-7)
-DV_INT_FORMS = ("int64", "int32")
+DV_INT_FORMS = ("int64", "int32", "uint8", "uint64", "bool")
 
 
 def _dv_special_factors(n, rot):
@@ -1119,7 +1119,11 @@ def _dv_forms_for(vec):
     kind = _dv_kind(vec)
     forms = []
     if kind == "int":
+        if all(float(np.real(x)) >= 0 for x in vec):      # unsigned integer dtypes (np.unpackbits / np.eye(N, dtype=np.uint8) rows)
+            forms += ["uint8"]
         forms += ["int64", "list-int", "int32", "tuple-int", "npscalars-int"]
+        if all(float(np.real(x)) >= 0 for x in vec):
+            forms += ["uint64", "bool"]
     if kind in ("int", "real"):
         forms += ["f64", "f32", "list-float", "tuple-float", "npscalars-float", "negzero", "c128-negzero"]
     forms += ["c128", "c64", "list-complex", "tuple-complex", "npscalars-complex", "list-mixed", "readonly", "strided"]
@@ -1169,6 +1173,8 @@ def _dv_cast(form, vec):
         a = np.array(re, dtype=np.float64)
         a[a == 0] = -0.0
         return np.array([complex(x, -0.0) for x in a], dtype=np.complex128)
+    if form in ("uint8", "uint64", "bool"):
+        return np.array(np.rint(re), dtype={"uint8": np.uint8, "uint64": np.uint64, "bool": np.bool_}[form])
     if form == "int64":
         return np.array(np.rint(re), dtype=np.int64)
     if form == "int32":
